@@ -525,6 +525,59 @@ def clause_escape_flag(facts, rep, nss):
     rep.require(n >= 4, 'C10: has-escape obligations of SkipString found: %d' % n)
 
 
+def clause_escaped_bits(facts, rep, tier='quick'):
+    """GetEscaped<B>(prev, backslash): the bit trick that tells which bytes of a block are escaped, evaluated
+    (sv/minterp.py) against the sequential definition -- a byte is escaped iff the byte before it is a backslash that
+    is not itself escaped, the carry says whether the block ends in such a backslash -- over every backslash mask of
+    10 bits (thorough: 16; exhaustive for B = 16) at the low and at the high end of the block, with both carries."""
+    from ..minterp import Interp, Unsupported, UndefinedBehaviour
+    import re as _re
+    n = 0
+    seen = set()
+    for f in facts.functions:
+        if f.short != 'GetEscaped' or len(f.params) != 2:
+            continue
+        m = _re.search(r'GetEscaped<(\d+)', f.name)
+        if not m or m.group(1) in seen:
+            continue
+        B = int(m.group(1))
+        seen.add(m.group(1))
+        rep.fn(f)
+        bits = 10 if tier == 'quick' else 16
+        bits = min(bits, B)
+        pid, bid_ = f.params[0]['id'], f.params[1]['id']
+        bad = None
+        cnt = 0
+        try:
+            for shift in sorted(set([0, B - bits])):
+                for mask in range(1 << bits):
+                    bs = mask << shift
+                    for prev in (0, 1):
+                        esc, mark = prev, 0
+                        for i in range(B):
+                            if esc:
+                                mark |= 1 << i
+                                esc = 0
+                            elif (bs >> i) & 1:
+                                esc = 1
+                        r = Interp(f, facts).run({pid: prev, bid_: bs}, {})
+                        cnt += 1
+                        got, carry = r[0] & ((1 << B) - 1), r[1][pid]
+                        if (got != mark or carry != esc) and bad is None:
+                            bad = 'backslash mask 0x%x, carry-in %d: escaped bits 0x%x carry-out %d, sequential scan gives 0x%x / %d' % (bs, prev, got, carry, mark, esc)
+                    if bad:
+                        break
+                if bad:
+                    break
+        except UndefinedBehaviour as ex:
+            bad = 'undefined behaviour: %s' % ex
+        except Unsupported as ex:
+            raise AnalysisBroken('C10: GetEscaped<%d> cannot be evaluated: %s' % (B, ex))
+        n += 1
+        rep.check(bad is None, 'E5.escaped-bits', f.qn, 'GetEscaped<%d> equals the sequential escape scan (%d evaluations)' % (B, cnt), f.loc, bad or '', facts.config)
+    return n
+
+
 def run(rep, tier):
     configs = ['K1', 'K3'] if tier == 'quick' else ['K1', 'K3', 'K4']
     for cfg in configs:
@@ -538,6 +591,8 @@ def run(rep, tier):
         clause_key_decode(facts, rep)
         clause_escape_flag(facts, rep, {'K1': ('::avx2::',), 'K3': ('::sse::',), 'K4': ('::avx2::', '::sse::')}[cfg])
         clause_escape_carry(facts, rep, {'K1': ('::avx2::',), 'K3': ('::sse::',), 'K4': ('::avx2::', '::sse::')}[cfg])
+        nge = clause_escaped_bits(facts, rep, tier)
+        rep.require(nge >= 2, 'C10: GetEscaped instantiations found: %d (>= 2 expected: block width and 64)' % nge)
         from . import c15
         c15.clause_f(facts, rep)   # SkipString's quote/backslash masks must not carry bits above the lane count
         c11.clause_shift(facts, rep, {'K1': ('::avx2::',), 'K3': ('::sse::',), 'K4': ('::avx2::', '::sse::')}[cfg])
